@@ -50,6 +50,17 @@ func effectCalls(andSuccess bool, specs ...Callee) func(f *Func) []Site {
 	}
 }
 
+// effectStores: every store to the named field.
+func effectStores(pkg, typ, field string) func(f *Func) []Site {
+	return func(f *Func) []Site {
+		var out []Site
+		for _, st := range f.StoresTo(f.Prog.fieldVar(pkg, typ, field)) {
+			out = append(out, st.Site)
+		}
+		return out
+	}
+}
+
 func calleeIs(f *Func, s Site, specs ...Callee) bool {
 	return matchCallee(f.Info(), s.real(), specs...)
 }
@@ -112,6 +123,16 @@ var gateGroups = []gateGroup{
 	{prop: "C01", id: "C01.l", rule: "every failing step of a sequencing round (hashing, signing, staging, tile upload) cuts off the lock-backend commit and the checkpoint publication",
 		specs: []gateSpec{
 			{fn: "ctlog.(*Log).sequencePool", what: "sequencing round", effect: effectCalls(true, specLockRepl), min: 8, tolerated: sequenceTolerated},
+		}},
+	{prop: "C04", id: "C04.k", rule: "every failing step of the admission function (issuer upload) cuts off the insertion of the leaf into the pool",
+		specs: []gateSpec{
+			{fn: "ctlog.(*Log).addLeafToPool", what: "admission", effect: effectStores(pkgCtlog, "pool", "pendingLeaves"), min: 1},
+		}},
+	{prop: "C02", id: "C02.h", rule: "every failing step of the submission handler - validation, the wait for sequencing, extension encoding, SCT signing, response encoding - cuts off the successful (SCT-bearing) return, and a failed submission never reaches the handlers' response body write",
+		specs: []gateSpec{
+			{fn: "ctlog.(*Log).addChainOrPreChain", what: "SCT issuance", effect: effectSuccess, min: 8},
+			{fn: "ctlog.(*Log).addChain", what: "add-chain response", effect: effectCalls(false, Callee{"net/http", "ResponseWriter", "Write"}), min: 1},
+			{fn: "ctlog.(*Log).addPreChain", what: "add-pre-chain response", effect: effectCalls(false, Callee{"net/http", "ResponseWriter", "Write"}), min: 1},
 		}},
 	{prop: "C09", id: "C09.h", rule: "every failing parse or validation step of the submission handler cuts off the call that adds the leaf to the pool",
 		specs: []gateSpec{
